@@ -16,6 +16,8 @@ func init() {
 		c20Snapshot(c, "C18.2b")
 		c01AtomicTake(c)
 		c18QueueAlignment(c)
+		c18Polarity(c, "C18.3b")
+		lockBalance(c, "C18.7", "engine", "transports", "types", "utils")
 		c18TransportDrain(c)
 		c03CloseEpilogue(c) // C18.5 = C03.3: both callback queues are dropped before the close event
 		c18NotHeld(c)
